@@ -17,6 +17,8 @@ type Loop struct {
 	labelStart    string
 	labelBreak    string
 	labelContinue string
+	// Number of `try` blocks which were open when the loop was entered.
+	tryDepth uint
 }
 
 type Function struct {
@@ -33,6 +35,8 @@ type Compiler struct {
 	modules         map[string]map[string]*Function
 	currFn          string
 	loops           []Loop
+	// Number of currently open `try` blocks: `break` / `continue` must uninstall the handlers of the blocks they leave.
+	tryDepth uint
 	fnNameMangle    map[string]uint64
 	varNameMangle   map[string]uint64
 	labelNameMangle map[string]uint64
